@@ -86,7 +86,7 @@ def make_cfg(cid, T, assets, dt=None, DEN=1, **extra):
 def tla_cfg(cfg):
     """the part of a cfg the specification sees (realisation hints such as raw prices / freq strings are dropped)"""
     keep_cfg = ('id', 'T', 'dt', 'tp', 'D', 'VS', 'DEN', 'nodes', 'assets', 'split', 'refines')
-    drop_asset = ('rawprice', 'rawcostts', 'freq', 'periodicity', 'periodicity_duration', 'block_size', 'wacc', 'force_contract')
+    drop_asset = ('rawprice', 'rawcostts', 'freq', 'periodicity', 'periodicity_duration', 'block_size', 'wacc', 'force_contract', 'scale', 'scale_range', 'rws', 'rwe')
     out = {k: cfg[k] for k in keep_cfg}
     out['assets'] = [{k: v for k, v in a.items() if k not in drop_asset} for a in cfg['assets']]
     return out
